@@ -48,6 +48,9 @@ def run (t : List String) : String :=
     -- one outage: the first attempt fails recoverably (the connection is lost again before the registration is
     -- answered), the second succeeds (`c12_recovers`)
     outText (reconnect (nat! m) [Attempt.recoverable, Attempt.ok]).1
+  | ["pubfeed", n, m] =>
+    -- the wrapper notices the loss wherever the inner sink reports it (poll_ready, start_send, poll_flush): `life`
+    ",".intercalate ((life pubsubBudgetPerOutage (nat! m) (nat! m) (List.replicate (nat! n) [Attempt.ok])).map outText)
   | ["lonereplier", n, m] =>
     -- the router unbinds a dead replier whoever else is (or is not) on the topic (`c10_*`, rrPoll partF)
     ",".intercalate ((life replierBudgetPerOutage (nat! m) (nat! m) (List.replicate (nat! n) [Attempt.ok])).map outText)
